@@ -67,6 +67,9 @@ def build_inputs(tier):
     for cmd in ["echo what? x", "ls file?.txt", "echo a ??", "echo $ HOME", "ls *.[ch] x", "echo a[0] b", "echo (a b) c", "echo [a   b]", "echo a(b c)d e", "echo {a,b}", "echo if x", "echo in", "grep for file", "echo a is b", "test x -a not"]:
         exp = f"__xonsh__.subproc_captured({', '.join(repr(w) for w in split_independent(cmd))})"
         cases.append(("plain", f"$({cmd})", exp, ["kf-neighbourhood"]))
+    for cmd in ["echo hello!world foo", "ls a.b!c", "echo a#b\n", "echo x #y\n", "tar -f\"my file\" x", "echo f'a' b", "a\\\nb", "echo a\\\nb c"]:
+        exp = f"__xonsh__.subproc_captured({', '.join(repr(w) for w in split_independent(cmd))})"
+        cases.append(("plain", f"$({cmd})", exp, ["kf-neighbourhood"]))
     # a backslash continuation inside the command: the next line starts a NEW word even in column 0 (blank before the backslash)
     for cmd, words in [("ls -l \\\n-a", ["ls", "-l", "-a"]), ("echo \"x\" \\\n\"y\"", ["echo", '"x"', '"y"']), ("echo a \\\nb c", ["echo", "a", "b", "c"]), ("echo a\t\\\n>> log", ["echo", "a", ">>", "log"]),
                        ("echo a \\\n  b", ["echo", "a", "b"]), ("git commit \\\n-m msg \\\n-q", ["git", "commit", "-m", "msg", "-q"])]:
@@ -146,6 +149,14 @@ def classify(x, o):
         return "KF-C06-dollar-then-blank"
     if o.get("kind") == "rejected" and any(keyword.iskeyword(w) for w in words):
         return "KF-C06-keyword-as-word"
+    if o.get("kind") in ("args-differ", "word-boundaries", "word-span", "rejected") and re.search(r"[\w.\-/]!", inner):
+        return "KF-C06-bang-in-word"
+    if o.get("kind") in ("args-differ", "word-boundaries", "word-span", "rejected") and "#" in inner:
+        return "KF-C06-hash-in-word"
+    if o.get("kind") in ("args-differ", "word-boundaries", "word-span", "rejected") and re.search(r"\S\\\r?\n", inner):
+        return "KF-C06-continuation-glued-to-word"
+    if o.get("kind") == "rejected" and re.search(r"[fF][rRbB]?['\"]", inner):
+        return "KF-C06-fstring-word"
     if o.get("kind") in ("args-differ", "word-boundaries", "word-span", "rejected") and re.search(r"[\[({]", inner.replace("@(", "").replace("$(", "").replace("$[", "").replace("${", "").replace("!(", "").replace("![", "").replace("@$(", "")):
         return "KF-C06-bracket-group-in-word"
     return None
